@@ -19,14 +19,18 @@ DirListsSmall == {<<>>} \cup {<< <<h, P2>> >> : h \in Handles}
 Spellings == { [form |-> "none"], [form |-> "nonspecific"], [form |-> "verbatim", v |-> <<"t", "a", "g", ":", "v", ".", "o", "r", "g", ",", "2", "0", "0", "0", ":", "t">>],
                [form |-> "secondary", s |-> <<"s", "t", "r">>], [form |-> "named", h |-> <<"a">>, s |-> <<"t">>],
                [form |-> "named", h |-> <<"b">>, s |-> <<"x", "%", "2", "1", "y">>], [form |-> "primary", s |-> <<"l">>],
+               [form |-> "named", h |-> <<"a">>, s |-> <<"%", "2", "1">>],                                \* a suffix made of escapes only
+               [form |-> "secondary", s |-> <<"%", "7", "3", "%", "7", "4", "%", "7", "2">>],
                [form |-> "verbatim", v |-> <<"!", "l", "o", "c">>],                                  \* a verbatim LOCAL tag: not resolved through "%TAG !"
                [form |-> "named", h |-> <<"a">>, s |-> <<"d", "%", "D", "0", "%", "9", "6", "%", "D", "F", "%", "B", "F", "%", "C", "2", "%", "8", "0", "%", "E", "0", "%", "A", "0", "%", "8", "0", "z">>],   \* lead bytes C2, D0, DF, E0
                [form |-> "named", h |-> <<"a">>, s |-> <<"c", "%", "C", "3", "%", "A", "9", "%", "E", "2", "%", "8", "2", "%", "A", "C", "%", "F", "0", "%", "9", "F", "%", "9", "8", "%", "8", "0">>] }
+\* later documents: the spellings that differ in how they resolve (the percent-escape variants are exercised by the first document)
+SpellingsLater == {sp \in Spellings : sp.form \notin {"named", "secondary"} \/ Len(sp.s) <= 5}
 Kinds == {"scalar", "seq", "map"}
 VARIABLES docs, keep, done
 vars == <<docs, keep, done>>
 \* bare: the document has no '---' line (only after a document that ended with '...', and without directives)
-DocChoices(first) == [dirs : (IF first \/ Full THEN DirLists ELSE DirListsSmall), yaml : BOOLEAN, sp : Spellings, kind : (IF first \/ Full THEN Kinds ELSE {"scalar"}),
+DocChoices(first) == [dirs : (IF first \/ Full THEN DirLists ELSE DirListsSmall), yaml : BOOLEAN, sp : (IF first THEN Spellings ELSE SpellingsLater), kind : (IF first \/ Full THEN Kinds ELSE {"scalar"}),
                       bare : (IF first THEN {FALSE} ELSE BOOLEAN)]
 Init == docs = <<>> /\ keep \in BOOLEAN /\ done = FALSE
 AddDoc == /\ ~done /\ Len(docs) < Docs
